@@ -51,12 +51,43 @@ def all_nodes(rel):
             stack.append(st)
 
 
+def _uses_function(x, name):
+    """Does a library expression / predicate / container mention the named engine function? (independent of
+    the library's own is_supported_by)."""
+    if getattr(x, "name", None) == name and hasattr(x, "args"):
+        return True
+    for attr in ("args", "operands", "items"):
+        for y in getattr(x, attr, ()) or ():
+            if _uses_function(y, name):
+                return True
+    for attr in ("operand", "item", "container", "expression"):
+        y = getattr(x, attr, None)
+        if y is not None and _uses_function(y, name):
+            return True
+    return False
+
+
+def _operation_expressions(o):
+    out = []
+    for attr in ("expression", "predicate"):
+        if hasattr(o, attr):
+            out.append(getattr(o, attr))
+    for t in getattr(o, "terms", ()) or ():
+        out.append(t.expression)
+    return out
+
+
 # ------------------------------------------------------------------------ C14
 @on_process
 def wellformed(run, ent, op, parents):
     run.stats["trees_walked"] += 1
     for n in all_nodes(ent.rel):
         problem = None
+        if isinstance(n, (UnaryOperationRelation, BinaryOperationRelation)) and isinstance(n.engine, sql.Engine):
+            if any(_uses_function(e, "itonly") for e in _operation_expressions(n.operation)):
+                run.violate("malformed_tree", {"node": str(n)[:200],
+                                               "problem": "iteration-only column function inside a SQL-engine node"}, entry=ent)
+                return
         if isinstance(n, UnaryOperationRelation):
             o = n.operation
             if isinstance(o, (Identity, PartialJoin)):
